@@ -33,7 +33,8 @@ type Params struct {
 	Init     string // none | zero | valid | oor
 	Gates    map[string]bool
 	SetupErr bool
-	RbMax    int // Consumer.Group.Rebalance.Retry.Max (default of the rig: 2)
+	RbMax    int  // Consumer.Group.Rebalance.Retry.Max (default of the rig: 2)
+	CoordEnv bool // the environment may make every coordinator lookup fail for a while (env:coord-down / env:coord-up)
 	CleanErr bool
 	CloseAny bool
 }
@@ -52,7 +53,7 @@ func atoi(v url.Values, k string, def int) int {
 func init() {
 	gx.RegisterRig("cg", func(v url.Values) (*gx.Scenario, error) {
 		p := &Params{Members: atoi(v, "m", 1), NParts: atoi(v, "np", 1), N: atoi(v, "n", 2), Mode: v.Get("mode"), NSess: atoi(v, "ns", 1),
-			Strategy: v.Get("strategy"), Init: v.Get("init"), SetupErr: atoi(v, "setuperr", 0) == 1, RbMax: atoi(v, "rbmax", 2), CleanErr: atoi(v, "cleanerr", 0) == 1, CloseAny: atoi(v, "closeany", 0) == 1}
+			Strategy: v.Get("strategy"), Init: v.Get("init"), SetupErr: atoi(v, "setuperr", 0) == 1, RbMax: atoi(v, "rbmax", 2), CoordEnv: atoi(v, "coordenv", 0) == 1, CleanErr: atoi(v, "cleanerr", 0) == 1, CloseAny: atoi(v, "closeany", 0) == 1}
 		if p.Mode == "" {
 			p.Mode = "all"
 		}
@@ -111,14 +112,15 @@ type member struct {
 }
 
 type rig struct {
-	p        *Params
-	c        *gx.Ctl
-	cl       *simkafka.Cluster
-	mu       sync.Mutex
-	ms       []*member
-	log      []hev
-	ready    int
-	setupErr error
+	coordEver bool // the coordinator-down period has begun (it happens at most once per execution)
+	p         *Params
+	c         *gx.Ctl
+	cl        *simkafka.Cluster
+	mu        sync.Mutex
+	ms        []*member
+	log       []hev
+	ready     int
+	setupErr  error
 }
 
 type tracker struct {
@@ -253,6 +255,8 @@ func run(c *gx.Ctl, p *Params) *gx.Outcome {
 			cl.CommitFaults = append(cl.CommitFaults, strings.TrimPrefix(f, "commit-"))
 		case strings.HasPrefix(f, "fetch-"):
 			cl.FetchFaults = append(cl.FetchFaults, strings.TrimPrefix(f, "fetch-"))
+		case strings.HasPrefix(f, "offsets-"):
+			cl.OffsetFaults = append(cl.OffsetFaults, strings.TrimPrefix(f, "offsets-"))
 		default:
 			cl.GroupFaults = append(cl.GroupFaults, f)
 		}
@@ -501,8 +505,42 @@ func (r *rig) actors() []gx.Actor {
 			}}}})
 		}
 	}
-	if anyRunning && r.hbWaiting() && r.c.TrailingAny("tick:", "Heartbeat", "cg.heartbeat", "poll-expires", "bc.round") < futile*2 {
+	futileLabels := []string{"tick:", "Heartbeat", "cg.heartbeat", "poll-expires", "bc.round"}
+	if p.CoordEnv {
+		// while the coordinator cannot be found a member asks again after every back-off: that alone is no progress
+		futileLabels = append(futileLabels, "FindCoordinator", "Metadata")
+	}
+	if anyRunning && r.hbWaiting() && r.c.TrailingAny(futileLabels...) < futile*2 {
 		acts = append(acts, gx.Actor{Label: "tick:heartbeat", Rank: 3, Variants: []gx.Variant{{Do: func() { time.Sleep(time.Second) }}}})
+	}
+	if p.CoordEnv {
+		// a period in which no broker knows the group's coordinator: ONE environment state, not one fault per lookup
+		switch {
+		case !r.coordEver && !closingNow:
+			acts = append(acts, gx.Actor{Label: "env:coord-down", Rank: 7, Variants: []gx.Variant{{Do: func() {
+				r.mu.Lock()
+				r.coordEver = true
+				r.mu.Unlock()
+				r.cl.CoordDown = true
+			}}}})
+		case r.cl.CoordDown:
+			// (only when a lookup has failed since the last such tick: somebody sleeps until he may ask again)
+			failedSince := false
+			tr := r.c.Trace()
+			for i := len(tr) - 1; i >= 0 && !strings.HasPrefix(tr[i], "tick:backoff"); i-- {
+				if strings.Contains(tr[i], "FindCoordinator.down") {
+					failedSince = true
+				}
+			}
+			if anyRunning && failedSince && r.c.TrailingAny("tick:", "FindCoordinator") < 12 {
+				// a member waits for its back-off to expire before it asks again
+				acts = append(acts, gx.Actor{Label: "tick:backoff", Rank: 3, Variants: []gx.Variant{{Do: func() { time.Sleep(60 * time.Millisecond) }}}})
+			}
+			if !closingNow {
+				// (once the application has asked for shutdown the outage lasts: Close must not depend on the cluster healing)
+				acts = append(acts, gx.Actor{Label: "env:coord-up", Rank: 5, Last: true, Variants: []gx.Variant{{Do: func() { r.cl.CoordDown = false }}}})
+			}
+		}
 	}
 	if r.cl.RebalanceTimeoutPossible(group) {
 		acts = append(acts, gx.Actor{Label: "env:rebalance-timeout", Rank: 6, Variants: []gx.Variant{{Do: func() { r.cl.RebalanceTimeout(group) }}}})
